@@ -31,6 +31,37 @@ pub unsafe extern "C" fn unlinkat(dirfd: libc::c_int, path: *const libc::c_char,
     libc::syscall(libc::SYS_unlinkat, dirfd, path, flags) as libc::c_int
 }
 
+// ------------------------------------------------------------ open64 interposition
+
+/// Index of the file-creating open (under OPEN_PREFIX) that fails with EIO / aborts; negative = off.
+static OPEN_FAULT_AT: AtomicI64 = AtomicI64::new(-1);
+static OPEN_FAULT_ABORTS: AtomicI64 = AtomicI64::new(0);
+static OPEN_CREATES: AtomicI64 = AtomicI64::new(0);
+static OPEN_PREFIX: std::sync::OnceLock<Vec<u8>> = std::sync::OnceLock::new();
+
+/// std::fs opens files through `open64(path, flags, mode)`; the harness binary defines the
+/// symbol (x86_64 SysV: the optional mode argument arrives in the third integer register) so
+/// that a child can make the k-th artifact write of a generation fail like a full disk would.
+#[no_mangle]
+pub unsafe extern "C" fn open64(path: *const libc::c_char, flags: libc::c_int, mode: libc::c_int) -> libc::c_int {
+    if flags & libc::O_CREAT != 0 {
+        if let Some(prefix) = OPEN_PREFIX.get() {
+            let p = std::ffi::CStr::from_ptr(path).to_bytes();
+            if p.starts_with(prefix) {
+                let n = OPEN_CREATES.fetch_add(1, Ordering::Relaxed);
+                if n == OPEN_FAULT_AT.load(Ordering::Relaxed) {
+                    if OPEN_FAULT_ABORTS.load(Ordering::Relaxed) != 0 {
+                        libc::abort();
+                    }
+                    *libc::__errno_location() = libc::EIO;
+                    return -1;
+                }
+            }
+        }
+    }
+    libc::syscall(libc::SYS_openat, libc::AT_FDCWD, path, flags, mode) as libc::c_int
+}
+
 // ------------------------------------------------------------------------ trees
 
 type Tree = BTreeMap<String, Vec<u8>>; // relative path -> bytes ("<dir>" marker for empty dirs)
@@ -196,10 +227,19 @@ pub fn c23_gen_child(sandbox: &str, stage: u32, abort: bool) -> ! {
         if stage < 100 {
             arm_stage_fault(Some((stage, if abort { StageFault::Abort } else { StageFault::Fail })));
         }
+        // stage >= 1000: the (stage-1000)-th file creation under the sandbox fails (or the process
+        // dies there); stage == 999: count file creations only
+        let _ = OPEN_PREFIX.set(sandbox.as_bytes().to_vec());
+        OPEN_CREATES.store(0, Ordering::Relaxed);
+        if stage >= 1000 {
+            OPEN_FAULT_ABORTS.store(abort as i64, Ordering::Relaxed);
+            OPEN_FAULT_AT.store((stage - 1000) as i64, Ordering::Relaxed);
+        }
         let r = circuit_builder::generate_all_circuit_binaries(&output, false, 1, None);
         libc::dup2(saved, 1);
         libc::close(saved);
-        println!("RET {}", if r.is_ok() { "ok" } else { "err" });
+        OPEN_FAULT_AT.store(-1, Ordering::Relaxed);
+        println!("RET {} consumed=0 unlinks={}", if r.is_ok() { "ok" } else { "err" }, OPEN_CREATES.load(Ordering::Relaxed));
     }
     std::process::exit(0);
 }
@@ -316,7 +356,7 @@ pub fn run(ctx: &Ctx) {
     let thorough = ctx.tier == crate::util::Tier::Thorough;
     ctx.set_rule(&format!(
         "initial state in {{no output, output directory with generated contents, output path is a file}} x for each of the up to three rename calls of the publish routine an action in {{ok, fail (error, nothing moved), crash-before, crash-after}} (a crash ends the schedule; all {} action strings, unused suffixes ignored) x {} rounds of generated directory contents; \
-         plus, for every returning schedule, a crash (abort) after k unlinkat calls for every k below the number the schedule performs (directory removals cut short); plus generation-stage faults (failure and abort injected at stage {} of the real generate_all_circuit_binaries with (N=1, no public batch)). \
+         plus, for every returning schedule, a crash (abort) after k unlinkat calls for every k below the number the schedule performs (directory removals cut short); plus generation-stage faults (failure and abort injected at stage {} of the real generate_all_circuit_binaries with (N=1, no public batch)) and generation write faults: the k-th file creation under the output's parent fails with EIO, or the process dies there, for every k a clean run performs (open64 defined by the harness binary). \
          Every schedule runs in a child process (real process death). Oracle on the directory tree afterwards: output path is absent, byte-identical previous set or byte-identical new set; previous set gone from the output => new set live or both sets intact elsewhere under the parent; returned Ok <=> new set live; failed generation => output untouched and no .staging-* entry. \
          Non-trivial: schedule with at least one fault; distinct by (initial state, consumed action prefix, unlink crash point).",
         all_schedules().len(), rounds, if thorough { "0..3" } else { "0..1" }));
@@ -425,6 +465,82 @@ pub fn run(ctx: &Ctx) {
                         let leftovers: Vec<String> = std::fs::read_dir(&sb).map(|rd| rd.flatten().map(|e| e.file_name().to_string_lossy().to_string()).filter(|n| n.contains(".staging-")).collect()).unwrap_or_default();
                         if !leftovers.is_empty() {
                             t.violation("C23:staging-left-behind", format!("failed generation (stage {}) left {:?} behind", stage, leftovers), case.clone());
+                        }
+                    }
+                }
+            }
+        }
+        // write faults: the k-th file creation of the real generation fails (EIO) or the process dies there
+        if wi == 2 % workers || workers > 4 {
+            let _ = std::fs::remove_dir_all(&sb);
+            std::fs::create_dir_all(&sb).unwrap();
+            // count the file creations of a clean run (and record the complete new set)
+            let clean = spawn(&["c23-gen-child".into(), sb.to_string_lossy().to_string(), "999".into(), "fail".into()]);
+            if let Ok(clean) = clean {
+                let n_creates = clean.unlinks; // the gen child reports its create count in this field
+                let full_set: Option<Vec<String>> = read_tree(&sb.join("out")).map(|t| t.keys().cloned().collect());
+                if clean.ret_ok != Some(true) || full_set.is_none() || n_creates <= 0 {
+                    t.infra(format!("clean generation run failed or created no files (ret={:?}, creates={})", clean.ret_ok, n_creates));
+                } else {
+                    let full_set = full_set.unwrap();
+                    let mut wj = 0usize;
+                    for k in 0..n_creates {
+                        for abort in [false, true] {
+                            for init in [Init::None, Init::Dir] {
+                                wj += 1;
+                                if workers > 4 && wj % workers != wi {
+                                    continue;
+                                }
+                                // quick tier: failure on every k with a previous set; aborts and the no-previous case sampled
+                                if !thorough && (abort || init == Init::None) && k % 3 != 0 {
+                                    continue;
+                                }
+                                let prev = gen_tree(&mut rng, "PREV");
+                                let _ = std::fs::remove_dir_all(&sb);
+                                std::fs::create_dir_all(&sb).unwrap();
+                                if init == Init::Dir {
+                                    write_tree(&sb.join("out"), &prev);
+                                }
+                                let res = match spawn(&["c23-gen-child".into(), sb.to_string_lossy().to_string(), (1000 + k).to_string(), if abort { "abort".into() } else { "fail".into() }]) {
+                                    Ok(r) => r,
+                                    Err(e) => {
+                                        t.infra(e);
+                                        continue;
+                                    }
+                                };
+                                t.eval();
+                                t.class(&format!("generation-write-fault|{}", if abort { "abort" } else { "EIO" }));
+                                t.nontrivial(fnv_str(&format!("wf|{:?}|{}|{}", init, k, abort)));
+                                let out = sb.join("out");
+                                let case = json!({"kind": "c23_gen", "init": format!("{:?}", init), "failing_file_creation": k, "abort": abort});
+                                let untouched = match init {
+                                    Init::Dir => read_tree(&out).as_ref() == Some(&prev),
+                                    _ => !out.exists(),
+                                };
+                                let new_complete = read_tree(&out).map(|t| t.keys().cloned().collect::<Vec<_>>() == full_set).unwrap_or(false);
+                                let leftovers: Vec<String> = std::fs::read_dir(&sb).map(|rd| rd.flatten().map(|e| e.file_name().to_string_lossy().to_string()).filter(|n| n.contains(".staging-")).collect()).unwrap_or_default();
+                                match res.ret_ok {
+                                    Some(true) => {
+                                        if !new_complete {
+                                            t.violation("C23:reports-success-with-incomplete-set", format!("generation returned Ok although file creation #{} failed and the output is not the complete new set", k), case.clone());
+                                        }
+                                    }
+                                    Some(false) => {
+                                        if !untouched {
+                                            t.violation("C23:failed-generation-touches-output", format!("generation failed at file creation #{} and changed the output path (initial {:?})", k, init), case.clone());
+                                        }
+                                        if !leftovers.is_empty() {
+                                            t.violation("C23:staging-left-behind", format!("generation failed at file creation #{} and left {:?} behind", k, leftovers), case.clone());
+                                        }
+                                    }
+                                    None => {
+                                        // process died: the output must still be the previous state (staging leftovers are expected)
+                                        if !untouched && !new_complete {
+                                            t.violation("C23:crash-during-generation-touches-output", format!("process death at file creation #{} left the output path neither untouched nor complete", k), case.clone());
+                                        }
+                                    }
+                                }
+                            }
                         }
                     }
                 }
